@@ -12,10 +12,10 @@ import (
 
 // GetApplication - Retrieve a single application from the main store
 func (k Keeper) GetApplication(ctx sdk.Ctx, addr sdk.Address) (application types.Application, found bool) {
-	app, found := k.ApplicationCache.GetWithCtx(ctx, addr.String())
-	if found && app != nil {
-		return app.(types.Application), found
-	}
+	// NOTE: the application cache is not consulted on reads (same as the validator cache in
+	//       x/nodes). It is keyed by address only and is shared with contexts that never commit
+	//       (app/simulate, historical custom queries), so an entry can differ from the state the
+	//       consensus path is working on and make block results node-dependent.
 	store := ctx.KVStore(k.storeKey)
 	value, _ := store.Get(types.KeyForAppByAllApps(addr))
 	if value == nil {
